@@ -529,11 +529,21 @@ class Interp:
                 pass
             self.block(st.finalbody, env, mod)
         elif isinstance(st, ast.With):
+            suppressed = []
             for item in st.items:
                 v = self.ev(item.context_expr, env, mod)
+                if isinstance(v, Opaque) and isinstance(v.tag, tuple) and v.tag[0] == "extcall" and v.tag[1].endswith("suppress"):
+                    suppressed.extend(a.name.split(".")[-1] for a in v.tag[2] if isinstance(a, External))
                 if item.optional_vars is not None:
                     self.assign(item.optional_vars, v, env, mod)
-            self.block(st.body, env, mod)
+            if suppressed:
+                try:
+                    self.block(st.body, env, mod)
+                except PyRaise as e:
+                    if e.exc not in suppressed:
+                        raise
+            else:
+                self.block(st.body, env, mod)
         elif isinstance(st, (ast.Global, ast.Nonlocal)):
             raise Undecided(f"global/nonlocal in interpreted code: {unparse(st)}")
         elif isinstance(st, ast.FunctionDef):
